@@ -269,6 +269,26 @@ func (fc *FnCtx) appendBuiltin(cc *ssa.CallCommon, args []V, resTy types.Type, p
 	fc.assume(and(sx("bvsle", newLen, ncap), sx("bvult", ncap, bvLit(1<<46, 64))))
 	base := fc.def("appb", sInt, ite(and(fits, not(eq(s.T[0], "0"))), s.T[0], nb))
 	inplace := and(fits, not(eq(s.T[0], "0")))
+	if !fc.dry {
+		// an append that fits writes behind the slice's length into its existing backing array
+		for _, fs := range fc.activeFrames() {
+			key := mk + "." + cs[0].Suf
+			alts := []string{not(inplace), sx(">=", s.T[0], fs.ac), eq(n, bvLit(0, 64))}
+			for _, t := range fs.targets {
+				for _, k := range t.keys {
+					if k == key && t.kind == "memall" {
+						alts = append(alts, "true")
+					}
+					if k == key && t.kind == "mem" {
+						alts = append(alts, and(eq(s.T[0], t.ref), sx("bvule", t.lo, add64(s.T[1], s.T[2])), sx("bvule", add64(s.T[1], newLen), t.hi)))
+					}
+				}
+			}
+			if g := or(alts...); g != "true" {
+				fc.oblige("frame", fs.label+"append{"+fc.srcText(pos, isKind[*ast.CallExpr])+"}", g, pos, fc.cprops(), fs.text)
+			}
+		}
+	}
 	// is the appended data a single element stored in a one-element varargs array?
 	single := ""
 	_ = single
